@@ -63,6 +63,9 @@ type Spec struct {
 	NoTmp bool
 	// Race: link the worker with the race detector (C14's free-running supplement)
 	Race bool
+	// GoDebug: //go:debug settings of the worker's main package, e.g. "panicnil=1" (what a main module
+	// with a go directive below 1.21 gets by default)
+	GoDebug string
 }
 
 type Reject struct {
@@ -155,7 +158,7 @@ func TreeHash() string {
 func (s *Spec) key() string {
 	h := sha1.New()
 	io.WriteString(h, TreeHash())
-	fmt.Fprintf(h, "%s|%v|%v|%s|%s|%s|%d|%s|%v|%v|%v|%v|%s\n", s.Name, s.SImports, s.RImports, s.SExtra, s.RExtra, s.CoImport, s.PerFile, s.GoVer, s.NoRef, s.DeriveRef, s.Race, s.NoTmp, s.SHeaderDecl)
+	fmt.Fprintf(h, "%s|%v|%v|%s|%s|%s|%d|%s|%v|%v|%v|%v|%s\n", s.Name, s.SImports, s.RImports, s.SExtra, s.RExtra, s.CoImport, s.PerFile, s.GoVer, s.NoRef, s.DeriveRef, s.Race, s.NoTmp, s.SHeaderDecl+"|"+s.GoDebug)
 	for _, k := range sortedKeys(s.SFiles) {
 		fmt.Fprintf(h, "%s\x00%s\n", k, s.SFiles[k])
 	}
@@ -762,6 +765,9 @@ func build(s *Spec, work string) (*Meta, error) {
 		return a || b || c
 	}
 	var sb strings.Builder
+	if s.GoDebug != "" {
+		sb.WriteString("//go:debug " + s.GoDebug + "\n")
+	}
 	sb.WriteString("package main\n\nimport (\n\t\"verif/harness\"\n\t\"verif/rt\"\n\tout \"w/out\"\n")
 	if !s.NoRef {
 		sb.WriteString("\tref \"w/ref\"\n")
